@@ -114,6 +114,9 @@ def within(x, tol):
     return z3.And(x <= t, -x <= t)
 
 
+XCHECK_EVERY = 25
+
+
 class Obl:
     """bookkeeping of obligations for one work item"""
 
@@ -143,6 +146,7 @@ class Obl:
             res["solver_s"] += time.time() - t
             if r == z3.unsat:
                 res["discharged"] += 1
+                self._second_opinion(label)
                 return True
             if r == z3.sat:
                 res["sat"] += 1
@@ -159,6 +163,29 @@ class Obl:
             return False
         finally:
             I.solver.pop()
+
+    def _second_opinion(self, label):
+        """thorough tier: every K-th discharged query is also decided by the cvc5 binary on the SMT-LIB2 dump of the same
+        assertions; a disagreement (or an error line) makes the item inconclusive"""
+        import os
+        if os.environ.get("VERIF_TIER_EFFECTIVE") != "thorough":
+            return
+        Obl._n = getattr(Obl, "_n", 0) + 1
+        if Obl._n % XCHECK_EVERY != 1:
+            return
+        try:
+            from .ext import cvc5_check
+            v, info, dt = cvc5_check(list(self.I.solver.assertions()), (), 60)
+        except Exception as ex:
+            self.res["notes"].append("second solver not run: %s" % ex)
+            return
+        self.res["solver_s"] += dt
+        if v == "unsat":
+            self.res["xcheck_agree"] = self.res.get("xcheck_agree", 0) + 1
+        elif v == "sat":
+            self.res["inconclusive"].append("SOLVER DISAGREEMENT (z3 unsat, cvc5 sat): %s" % label)
+        else:
+            self.res["xcheck_undecided"] = self.res.get("xcheck_undecided", 0) + 1
 
     def witness(self, cond=True, label=""):
         """reachability witness: the path condition (and cond) must be satisfiable"""
